@@ -1414,26 +1414,18 @@ func (c *control) dirT(colon, at bool, params []any) {
 			colnum -= len(spaces)
 		}
 		c.out = append(c.out, spaces[:colnum]...)
-		start = bytes.LastIndexAny(c.out, "\n\r\f")
-		if start < 0 {
-			from = len(c.out)
-		} else {
-			start++
-			from = len(c.out) - start
-		}
+		// Columns are characters, not bytes.
+		start = bytes.LastIndexAny(c.out, "\n\r\f") + 1
+		from = utf8.RuneCount(c.out[start:])
 		if colinc <= 0 || from == from/colinc*colinc {
 			target = from
 		} else {
 			target = from/colinc*colinc + colinc
 		}
 	} else {
-		start = bytes.LastIndexAny(c.out, "\n\r\f")
-		if start < 0 {
-			from = len(c.out)
-		} else {
-			start++
-			from = len(c.out) - start
-		}
+		// Columns are characters, not bytes.
+		start = bytes.LastIndexAny(c.out, "\n\r\f") + 1
+		from = utf8.RuneCount(c.out[start:])
 		target = colnum * colinc
 		if target < from {
 			if colinc <= 0 {
